@@ -14,6 +14,18 @@ DRIVER = None  # set by main()
 def fr(x): return f"{x.numerator}/{x.denominator}"
 def gstr(z): return f"{fr(z[0])},{fr(z[1])}"
 
+def cmul_m(A, Bm):
+    d = len(A); Z = (Fraction(0), Fraction(0)); out = [[Z] * d for _ in range(d)]
+    for a in range(d):
+        for c in range(d):
+            x = A[a][c]
+            if x == Z: continue
+            for b in range(d):
+                y = Bm[c][b]
+                if y == Z: continue
+                o = out[a][b]; out[a][b] = (o[0] + x[0] * y[0] - x[1] * y[1], o[1] + x[0] * y[1] + x[1] * y[0])
+    return out
+
 def gen_problem(rnd, hermitian=True):
     N = rnd.choice([1, 2, 2, 3, 3, 4]); sizes = [rnd.choice([1, 1, 2, 2, 3]) for _ in range(N)]
     while sum(sizes) > 6: sizes[rnd.randrange(N)] = 1
@@ -64,7 +76,30 @@ def gen_problem(rnd, hermitian=True):
                     for y in range(s): full[(off[b] + x) * d + off[b] + y] = m[x][y]
                 masks.append({"block": b, "mask": full}); fd_py[b] = np.array(m, dtype=bool)
         fd = {"kind": "dict", "masks": masks}
-    return dict(N=N, sizes=sizes, d=d, blocks=blocks, k=k, terms=terms, fd=fd, fd_py=fd_py, hermitian=hermitian, off=off)
+    lab = None
+    if not hermitian and rnd.random() < 0.35:
+        # a lab frame related to the canonical one by a unimodular S (product of shears): H_lab = S H S^-1, right vectors = columns of S,
+        # left vectors = columns of S^-H; perturbations that are *Hermitian in the lab frame* are included
+        one_ = (Fraction(1), Fraction(0)); Z = (Fraction(0), Fraction(0))
+        eye = [[one_ if a == b else Z for b in range(d)] for a in range(d)]; S = [r[:] for r in eye]; Sinv = [r[:] for r in eye]
+        for _ in range(rnd.randint(1, 3)):
+            a, b = rnd.sample(range(d), 2) if d >= 2 else (0, 0)
+            if a == b: break
+            cc = (Fraction(rnd.choice([1, -1, 2])), Fraction(rnd.choice([0, 0, 1])) if cplx else Fraction(0))
+            sh = [r[:] for r in eye]; sh[a][b] = cc; shi = [r[:] for r in eye]; shi[a][b] = (-cc[0], -cc[1])
+            S = cmul_m(S, sh); Sinv = cmul_m(shi, Sinv)
+        labt = {}
+        for n in list(terms):
+            if any(n) and rnd.random() < 0.5:
+                hm = [[entry() for _ in range(d)] for _ in range(d)]
+                for a in range(d):
+                    hm[a][a] = (hm[a][a][0], Fraction(0))
+                    for b in range(a + 1, d): hm[b][a] = (hm[a][b][0], -hm[a][b][1])
+                labt[n] = hm; terms[n] = cmul_m(cmul_m(Sinv, hm), S)
+            else:
+                labt[n] = cmul_m(cmul_m(S, terms[n]), Sinv)
+        lab = {"S": S, "Sinv": Sinv, "terms": labt}
+    return dict(N=N, sizes=sizes, d=d, blocks=blocks, k=k, terms=terms, fd=fd, fd_py=fd_py, hermitian=hermitian, off=off, lab=lab)
 
 def to_sympy(m):
     return sympy.Matrix([[sympy.Rational(z[0].numerator, z[0].denominator) + sympy.I * sympy.Rational(z[1].numerator, z[1].denominator) for z in row] for row in m])
@@ -135,6 +170,8 @@ def choose_variant(P, rnd):
         v["carrier"] = "dense"; v["int_h0"] = False
         v["level_rotation"] = P["fd"]["kind"] != "dict" and rnd.random() < 0.7
         v["np_seed"] = rnd.randrange(2**31)
+    if P.get("lab") is not None and rnd.random() < 0.7:
+        v["designation"] = "biorthogonal"; v["carrier"] = "dense"; v["int_h0"] = False
     if v["designation"] == "blockseries": v["container"] = "dict"
     if v["designation"] in ("indices", "blockseries") and rnd.random() < 0.5: v["interleave"] = True
     return v
@@ -176,6 +213,10 @@ def run_impl_numeric(P, requests, v, rnd):
         W = Q @ (R if cplx else R.real)                     # new basis vectors (columns) in the rotated frame
         mats = {n: Q @ m @ Q.conj().T for n, m in mats.items()}
         kw["subspace_eigenvectors"] = [W[:, off[b]:off[b + 1]] for b in range(N)]
+    if v["designation"] == "biorthogonal":
+        Sm = to_float(P["lab"]["S"]); Sim = to_float(P["lab"]["Sinv"])
+        mats = {n: to_float(m) for n, m in P["lab"]["terms"].items()}
+        kw["subspace_eigenvectors"] = [(Sm[:, off[b]:off[b + 1]], Sim.conj().T[:, off[b]:off[b + 1]]) for b in range(N)]
     idx_labels = P["blocks"]
     if v["designation"] in ("indices", "blockseries") and v.get("interleave"):
         idx_labels, perm = interleave(P, rnd)
